@@ -29,7 +29,7 @@ DoTx(tx) ==
       bad == {t \in TwinBad(Wc, Wn, Ev(tx, rc), Ev(txn, rn), rc.W, rn.W) :
                 TwinFindingOf(t, tx, Wc, Wn, Ev(tx, rc), Ev(txn, rn), rc.W, rn.W) \notin Known}
   IN /\ synced
-     /\ rc.err # "over" /\ rn.err # "over"
+     /\ rc.err # "over" /\ rn.err # "over" /\ SafeWorld(rc.W) /\ SafeWorld(rn.W)
      /\ Wc' = rc.W /\ Wn' = rn.W
      /\ hist' = Append(hist, [k |-> "tx", c |-> tx.c, m |-> tx.m, s |-> tx.s, a |-> tx.a, funds |-> 0, fault |-> 0])
      /\ synced' = (rc.ok = rn.ok /\ SameMarket(rc.W, rn.W))
